@@ -115,3 +115,56 @@ SPECS["C06"] = {
     "assumptions": ["strings of 1 symbolic byte; lists/maps of the listed shapes"],
     "outside": ["unbounded recursion", "stdlib functions via the reflection bridge (C19)", "sleep/cron/pulse/now/rand builtins"],
 }
+
+SPECS["C09"] = {
+    "explanation": "Real ThreadPool code (workers as goroutines, sync.Mutex/Cond modelled by the executor's scheduler) with every scheduling decision at a "
+                   "visible operation a symbolic variable bounded by a pre-emption budget; terminal states are checked for every task having run exactly once.",
+    "level_text": "bounded: all schedules with <= P pre-emptions for W workers and M tasks; a terminal state with a queued task and all workers waiting is the lost wake-up",
+    "level_note": "trusts go/ssa, gosym's model of sync.Mutex/Cond/WaitGroup/time.Sleep (fair yield), sequentially consistent memory, z3",
+    "harnesses": [
+        {"name": "H1-no-lost-task-W%dM%d" % (w, m), "pkg": "engine/pool", "files": ["pool/c09.go"], "fn": "VerifC09NoLostTask",
+         "what": "%d worker(s), %d task(s), then no further call" % (w, m), "reach": ["quiescent"],
+         "quick": {"params": {"W": w, "M": m, "P": 2}, "unwind": 30, "wall_s": 300} if w * m <= 2 else None,
+         "thorough": {"params": {"W": w, "M": m, "P": 3}, "unwind": 30, "wall_s": 1500}}
+        for (w, m) in ((1, 1), (1, 2), (2, 1), (2, 2))
+    ] + [
+        {"name": "H2-waitall", "pkg": "engine/pool", "files": ["pool/c09.go"], "fn": "VerifC09WaitJoin",
+         "what": "WaitAll after 2 tasks", "reach": ["waited"],
+         "quick": {"params": {"W": 1, "M": 2, "P": 2, "JOIN": 0}, "unwind": 30, "wall_s": 300},
+         "thorough": {"params": {"W": 2, "M": 2, "P": 2, "JOIN": 0}, "unwind": 30, "wall_s": 1500}},
+        {"name": "H2-joinall", "pkg": "engine/pool", "files": ["pool/c09.go"], "fn": "VerifC09WaitJoin",
+         "what": "JoinAll after 2 tasks", "reach": ["joined"],
+         "quick": {"params": {"W": 1, "M": 2, "P": 2, "JOIN": 1}, "unwind": 30, "wall_s": 300},
+         "thorough": {"params": {"W": 2, "M": 2, "P": 2, "JOIN": 1}, "unwind": 30, "wall_s": 1500}},
+        {"name": "H3-resize", "pkg": "engine/pool", "files": ["pool/c09.go"], "fn": "VerifC09Resize",
+         "what": "SetWorkerCount(a) then (b, wait) with a,b in 0..2 while a task arrives", "reach": ["resized"],
+         "quick": {"params": {"P": 1}, "unwind": 30, "wall_s": 300}, "thorough": {"params": {"P": 2}, "unwind": 30, "wall_s": 1500}},
+    ],
+    "assumptions": ["pre-emption bound P", "fair-yield rule for time.Sleep polling loops", "sequential consistency"],
+    "outside": ["more workers/tasks/pre-emptions than stated", "real-time behaviour of the Go scheduler"],
+}
+
+SPECS["C02"] = {
+    "explanation": "Real processor, task queue, monitors, event pump and thread pool; the cascade shape (children per action, kinds incl. non-triggering, "
+                   "priorities, failing flags) is symbolic; AddEventAndWait must return, and at return every action of the cascade ran once, every monitor is "
+                   "finished, the finish handler ran once and AllErrors() holds exactly the failing (event, rule) pairs of this cascade. With P>0 scheduling "
+                   "decisions are symbolic variables under a pre-emption budget; a deadlock verdict is 'wait never returns'.",
+    "level_text": "bounded: all cascade shapes up to depth/size bounds x all failing-flag assignments; sequential (1 worker, deterministic) and all schedules with <= P pre-emptions",
+    "level_note": "trusts go/ssa, gosym's sync/scheduler model, z3; cascades of depth <= 2, <= 5 events, <= 2 workers, <= 2 pre-emptions",
+    "harnesses": [
+        {"name": "H1-cascade-sequential", "pkg": "engine", "files": ["engine/c02.go"], "fn": "VerifC02Cascade",
+         "what": "1 worker, deterministic schedule, depth<=2, <=5 events", "reach": ["returned"],
+         "quick": {"params": {"WORKERS": 1, "DEPTH": 2, "MAXEVS": 4, "P": 0}, "unwind": 40, "wall_s": 300},
+         "thorough": {"params": {"WORKERS": 1, "DEPTH": 2, "MAXEVS": 5, "P": 0}, "unwind": 40, "wall_s": 1500}},
+        {"name": "H2-cascade-schedules", "pkg": "engine", "files": ["engine/c02.go"], "fn": "VerifC02Cascade",
+         "what": "2 workers, all schedules with <=1 (quick) / <=2 (thorough) pre-emptions, depth 1, <=3 events", "reach": ["returned"],
+         "quick": {"params": {"WORKERS": 2, "DEPTH": 1, "MAXEVS": 2, "P": 1}, "unwind": 40, "wall_s": 400},
+         "thorough": {"params": {"WORKERS": 2, "DEPTH": 1, "MAXEVS": 3, "P": 2}, "unwind": 40, "wall_s": 2400}},
+        {"name": "H2-two-cascades", "pkg": "engine", "files": ["engine/c02.go"], "fn": "VerifC02TwoCascades",
+         "what": "two cascades in flight, 1 worker sequential (quick) / 2 workers P<=1 (thorough)", "reach": ["second-returned", "all-idle"],
+         "quick": {"params": {"WORKERS": 1, "DEPTH": 1, "MAXEVS": 5, "P": 0}, "unwind": 40, "wall_s": 300},
+         "thorough": {"params": {"WORKERS": 2, "DEPTH": 1, "MAXEVS": 4, "P": 1}, "unwind": 40, "wall_s": 2400}},
+    ],
+    "assumptions": ["pre-emption bound", "fair-yield rule for polling loops", "sequential consistency"],
+    "outside": ["> 2 workers", "cascades deeper than 3", "ECAL-level addEventAndWait (same Go code path underneath)"],
+}
